@@ -183,6 +183,15 @@ func handleExceptionSignal(vm *r.VM, blockModule *r.Module, catchBlock []*syntax
 	// try to find if the blockErr is an exception signal
 	exception, realErr := extractSignalValue(blockErr, zerr.SigTypeException)
 
+	// runtime errors (e.g. 被除数为0) and exceptions raised from inner or native
+	// functions are regarded as 异常, too - so that they could be intercepted as well
+	switch e := blockErr.(type) {
+	case *zerr.RuntimeError:
+		exception, realErr = value.NewException(e.Error()), nil
+	case *value.Exception:
+		exception, realErr = e, nil
+	}
+
 	// so, if the blockErr is not an exception signal, return it directly
 	if realErr != nil {
 		return nil, realErr
